@@ -262,7 +262,7 @@ def run(ctx):
             (1, 1, 1), (2, 1, 8), (256, 63, 256), (256, 64, 300), (128, 65, 5000), (4096, 2048, 8192), (64, 0, 128),
             (4096, 4095, 8192), (8192, 4095, 8192)]
     stream_kinds = ["random", "random", "dense", "dense", "zeros", "ff", "periodic", "sparse"]
-    ngroups = 450 if thorough else 44
+    ngroups = 450 if thorough else 80
     if not r["ok"] and not ctx.replay:
         # an obligation no longer checks: widen the search for a concrete failing input
         # (streams well beyond any plausible read-buffer size, more groups)
